@@ -97,6 +97,15 @@ def check_bytes(sh, b, cls=None, deep=True, attrib=None):
         sh.violation(exc_key('dis', e, sys.exc_info()[2]), 'dis(%s) raised %r' % (b.hex(), e), wit)
         return None
     sh.case(b, ins is not None, cls)
+    if len(b) > 12 or (b[0] & 7) == 3:
+        # the same input handed over as plain bytes (the usual way to call dis) instead of as a stream object
+        try:
+            ib = x86mnemo.dis(b, attrib) if attrib else x86mnemo.dis(b)
+            same = (ib is None) == (ins is None) and (ib is None or ib.l == ins.l)
+            if not same:
+                sh.violation('dis/bytes-input-differs-from-stream-input', 'dis(%s): %s from a stream object, %s from the bytes' % (b.hex(), 'None' if ins is None else ins.l, 'None' if ib is None else ib.l), wit)
+        except Exception as e:
+            sh.violation(exc_key('dis', e, sys.exc_info()[2]), 'dis(%s) on plain bytes raised %r' % (b.hex(), e), wit)
     if ins is None:
         return None
     l = ins.l
@@ -162,6 +171,26 @@ def check_bytes(sh, b, cls=None, deep=True, attrib=None):
                 sh.violation('stream/%s-stream-decode-differs' % kind, 'dis(%s) accepted with l=%d but from a %s stream: %s' % (b.hex(), l, kind, 'None' if i4 is None else i4.l), dict(wit, stream=kind))
             if not expect and i4 is not None:
                 sh.violation('stream/truncated-accepted/%s' % ins.m.name, 'dis(%s) has l=%d but a truncated %s stream is accepted' % (b.hex(), l, kind), dict(wit, stream=kind))
+    # a virtual address space of 2^32 bytes in which the instruction ends exactly at the top
+    class _TopVirt(object):
+        def __init__(self, data):
+            self.data, self.base = data, (1 << 32) - len(data)
+
+        def __len__(self):
+            return 1 << 32
+
+        def __call__(self, start, stop, section=None):
+            return self.data[max(0, start - self.base):max(0, stop - self.base)]
+    try:
+        tv = _TopVirt(b[:l])
+        st = bin_stream(tv, tv.base)
+        i5 = x86mnemo.dis(st)
+        got = None if i5 is None else (i5.l, bytes(i5.b), st.offset)
+    except Exception as e:
+        got = 'raises %s' % type(e).__name__
+    sh.evaluations += 1
+    if got != (l, b[:l], 1 << 32):
+        sh.violation('stream/virt-top-of-address-space', 'dis(%s) from a 2^32-byte virtual stream, the instruction ending at 2^32: (l, raw, position) = %r' % (b[:l].hex(), got if not isinstance(got, tuple) else (got[0], got[1].hex(), got[2])), dict(wit, stream='virt-top'))
     # decode at a stream offset
     for off in (1, 7, 4096):
         pad = bytes((i * 37 + 11) & 0xff for i in range(off))
@@ -276,6 +305,7 @@ def shards(tier, seed):
         out.append(('cells', i, per))
     out.append(('prefixes',))
     out.append(('dupprefix',))
+    out.append(('longforms',))
     out.append(('mode16',))
     for i in range(16 if tier == 'quick' else 128):
         out.append(('randbytes', i))
@@ -318,6 +348,17 @@ def run_shard(shard, tier, seed):
         for cell in x86space.cells((0, 1)):
             for b, cls in x86space.strings_for_cell(cell, 'quick', seed, prefixes=[b'', b'\x66', b'\x67', b'\xf3', b'\x2e', b'\x66\x67'], modrms=modrms, sibs=[0x24], nfill=1):
                 check_bytes(sh, b, cls='m16:%02x%02x/p%s' % (cell[0], cell[1], cls[1]), attrib=at)
+    elif kind == 'longforms':
+        # the longest encodings (SIB + disp32 + imm32, far pointers, 0F 3A forms with immediates) behind runs of 1 to 9 prefix
+        # bytes: strings of up to 24 bytes, some of them longer than the architectural 15-byte limit
+        bodies = [bytes.fromhex(h) for h in ('c78424785634 12efbeadde'.replace(' ', ''), '81842478563412efbeadde', '69842478563412efbeadde', 'c7052010000078563412', '0fba6c24100711223344',
+                                             'ea7856341223 00'.replace(' ', ''), '9a785634122300', '660f3a0f8424785634120511', 'f7842478563412efbeadde', 'a178563412', '6878563412', 'c8341205')]
+        runs = [b'\x2e', b'\x2e\x2e', b'\x2e\x36\x3e', b'\x2e' * 4, b'\x2e' * 5, b'\x26\x2e\x36\x3e\x64', b'\x2e' * 6, b'\xf0\x2e\x2e\x2e\x2e', b'\xf3\xf3\xf3\xf3\xf3', b'\x64' * 8, b'\x67\x2e\x2e\x2e\x2e', b'\x2e' * 9,
+                b'\x66\x2e\x2e\x2e\x2e', b'\x2e\x2e\x2e\x2e\x66', b'\x65\x64\x3e\x36\x2e\x26']
+        for body in bodies:
+            for run in runs:
+                for tail in (b'', b'\x90\x90\x90', b'\xcc' * 9):
+                    check_bytes(sh, run + body + tail, cls='long:%d+%d' % (len(run), len(body)), deep=(tail == b''))
     elif kind == 'dupprefix':
         # a size prefix given twice is still one prefix: "the instruction" ends where the reference decoder says it ends, and the
         # decoder may not consume bytes beyond it (for these strings the C01 comparison does not apply: superfluous prefixes are
